@@ -1,8 +1,10 @@
 pub mod common;
 pub mod c05;
 pub mod c08;
+pub mod c10;
 pub mod c12;
 pub mod c13;
+pub mod c16;
 
 use crate::spec::Scenario;
 
@@ -10,8 +12,10 @@ pub fn scenario(id: &str) -> Option<Box<dyn Scenario>> {
     match id {
         "C05" => Some(Box::new(c05::C05)),
         "C08" => Some(Box::new(c08::C08)),
+        "C10" => Some(Box::new(c10::C10)),
         "C12" => Some(Box::new(c12::C12)),
         "C13" => Some(Box::new(c13::C13)),
+        "C16" => Some(Box::new(c16::C16)),
         _ => None,
     }
 }
